@@ -13,19 +13,19 @@ import (
 )
 
 const (
-	ptIdle = iota
-	ptMidHead
-	ptReqMod
-	ptRoundTrip
-	ptResMod
-	ptWriting
-	ptSecondHead // the head of a second request is partly buffered, the rest has not arrived
-	ptNever
+	zzptIdle = iota
+	zzptMidHead
+	zzptReqMod
+	zzptRoundTrip
+	zzptResMod
+	zzptWriting
+	zzptSecondHead // the head of a second request is partly buffered, the rest has not arrived
+	zzptNever
 )
 
 // shutter requests shutdown (in its own goroutine, as a caller of Close would)
 // when the connection handler reaches the chosen progress point.
-type shutter struct {
+type zzshutter struct {
 	p         *Proxy
 	at        int
 	fired     bool
@@ -35,7 +35,7 @@ type shutter struct {
 	afterObs  []bool
 }
 
-func (s *shutter) hit(pt int) {
+func (s *zzshutter) hit(pt int) {
 	if pt != s.at || s.fired {
 		return
 	}
@@ -48,43 +48,43 @@ func (s *shutter) hit(pt int) {
 	vf.Quiesce()
 }
 
-func (s *shutter) ModifyRequest(req *http.Request) error {
+func (s *zzshutter) ModifyRequest(req *http.Request) error {
 	s.reqStarts++
 	if s.returned {
 		s.lateStart = true
 	}
-	s.hit(ptReqMod)
+	s.hit(zzptReqMod)
 	return nil
 }
 
-func (s *shutter) ModifyResponse(res *http.Response) error {
-	s.hit(ptResMod)
+func (s *zzshutter) ModifyResponse(res *http.Response) error {
+	s.hit(zzptResMod)
 	return nil
 }
 
 // hookConn is a clientConn whose reads and writes can trigger the shutdown.
-type hookConn struct {
-	*clientConn
-	s       *shutter
+type zzhookConn struct {
+	*zzclientConn
+	s       *zzshutter
 	readPt  []int // progress point represented by the k-th Read
 	reads   int
 	wrotePt bool
 }
 
-func (c *hookConn) Read(p []byte) (int, error) {
+func (c *zzhookConn) Read(p []byte) (int, error) {
 	if c.reads < len(c.readPt) {
 		c.s.hit(c.readPt[c.reads])
 	}
 	c.reads++
-	return c.clientConn.Read(p)
+	return c.zzclientConn.Read(p)
 }
 
-func (c *hookConn) Write(p []byte) (int, error) {
+func (c *zzhookConn) Write(p []byte) (int, error) {
 	if !c.wrotePt {
 		c.wrotePt = true
-		c.s.hit(ptWriting)
+		c.s.hit(zzptWriting)
 	}
-	return c.clientConn.Write(p)
+	return c.zzclientConn.Write(p)
 }
 
 // VerifC07Handler: one connection, one or two exchanges, shutdown requested at
@@ -92,47 +92,47 @@ func (c *hookConn) Write(p []byte) (int, error) {
 func VerifC07Handler() {
 	at := vf.Choice("shutdown-at", 8)
 	two := vf.Choice("second-request-pipelined", 2) == 1
-	if at == ptSecondHead {
+	if at == zzptSecondHead {
 		two = false
 	}
 	p := NewProxy()
-	s := &shutter{p: p, at: at}
-	r1 := reqSpec{method: "GET", path: "/one", hval: "a"}.wire()
-	r2 := reqSpec{method: "GET", path: "/two", hval: "b"}.wire()
+	s := &zzshutter{p: p, at: at}
+	r1 := zzreqSpec{method: "GET", path: "/one", hval: "a"}.wire()
+	r2 := zzreqSpec{method: "GET", path: "/two", hval: "b"}.wire()
 	var segs [][]byte
 	var readPt []int
 	switch {
-	case at == ptMidHead:
+	case at == zzptMidHead:
 		segs = [][]byte{r1[:10], r1[10:]}
-		readPt = []int{ptNever, ptMidHead}
-	case at == ptSecondHead:
+		readPt = []int{zzptNever, zzptMidHead}
+	case at == zzptSecondHead:
 		// the first read brings request one and ten bytes of request two; the proxy's next
 		// read (for the rest of that head) finds the client silent
 		segs = [][]byte{append(append([]byte(nil), r1...), r2[:10]...)}
-		readPt = []int{ptNever, ptSecondHead}
+		readPt = []int{zzptNever, zzptSecondHead}
 	default:
 		segs = [][]byte{r1}
-		readPt = []int{ptIdle}
+		readPt = []int{zzptIdle}
 	}
 	if two {
 		segs[len(segs)-1] = append(append([]byte(nil), segs[len(segs)-1]...), r2...)
 	}
-	cc := newClientConn("client", false, segs...) // the client stays connected and idle afterwards
-	conn := &hookConn{clientConn: cc, s: s, readPt: readPt}
-	o := &origin{}
+	cc := zznewClientConn("client", false, segs...) // the client stays connected and idle afterwards
+	conn := &zzhookConn{zzclientConn: cc, s: s, readPt: readPt}
+	o := &zzorigin{}
 	o.answer = func(i int, req *http.Request) (*http.Response, error) {
 		if i == 0 {
-			s.hit(ptRoundTrip)
+			s.hit(zzptRoundTrip)
 		}
-		return rawResponse(resSpec{status: 200, hval: "o", body: []byte("body")}.wire(), req)
+		return zzrawResponse(zzresSpec{status: 200, hval: "o", body: []byte("body")}.wire(), req)
 	}
 	p.SetRoundTripper(o)
 	p.SetRequestModifier(s)
 	p.SetResponseModifier(s)
 	// the connection is served the way every connection is: Serve accepts it from a listener
 	// (which then reports that it is closed) and starts its handler
-	go p.Serve(&oneConnListener{conn: conn})
-	if at == ptNever {
+	go p.Serve(&zzoneConnListener{conn: conn})
+	if at == zzptNever {
 		// no shutdown during the exchanges: request it once everything is idle
 		vf.Quiesce()
 		s.fired = true
@@ -141,7 +141,7 @@ func VerifC07Handler() {
 	}
 	vf.Quiesce()
 
-	if at == ptSecondHead && s.fired {
+	if at == zzptSecondHead && s.fired {
 		vf.Reach("second-head")
 	}
 	vf.Assert(s.fired, "shutdown-was-requested")
@@ -149,17 +149,17 @@ func VerifC07Handler() {
 	// (a handler closes its connection when it finishes, just before it signs off)
 	vf.Assert(cc.closed >= 1, "connection-closed-when-shutdown-returned")
 	vf.Assert(!s.lateStart, "no-request-modifier-starts-after-shutdown-returned")
-	got := clientView(cc.out.Bytes(), []string{"GET", "GET"})
+	got := zzclientView(cc.out.Bytes(), []string{"GET", "GET"})
 	vf.Assert(len(got) == s.reqStarts, "every-exchange-whose-request-modifier-started-gets-its-response")
 	for i, g := range got {
 		vf.Assert(g.ok && g.status == 200 && string(g.body) == "body", "response-complete")
 		_ = i
 	}
 	// the response written once shutdown has been observed is marked close
-	if len(got) > 0 && at <= ptResMod {
+	if len(got) > 0 && at <= zzptResMod {
 		last := got[len(got)-1]
 		vf.Assert(last.close, "last-response-marked-connection-close")
-		if at <= ptReqMod && len(got) == 1 {
+		if at <= zzptReqMod && len(got) == 1 {
 			vf.Reach("closed-after-first")
 		}
 	}
@@ -167,7 +167,7 @@ func VerifC07Handler() {
 }
 
 // scriptListener hands out its connections, then blocks until closed.
-type scriptListener struct {
+type zzscriptListener struct {
 	conns   []net.Conn
 	closedc chan struct{}
 	closed  bool
@@ -176,7 +176,7 @@ type scriptListener struct {
 	hook    func() // native replay: called when Serve comes back to Accept
 }
 
-func (l *scriptListener) Accept() (net.Conn, error) {
+func (l *zzscriptListener) Accept() (net.Conn, error) {
 	l.calls++
 	if l.hook != nil && l.calls == len(l.conns)+1 {
 		l.hook()
@@ -192,38 +192,38 @@ func (l *scriptListener) Accept() (net.Conn, error) {
 	<-l.closedc
 	return nil, net.ErrClosed
 }
-func (l *scriptListener) Close() error {
+func (l *zzscriptListener) Close() error {
 	if !l.closed {
 		l.closed = true
 		close(l.closedc)
 	}
 	return nil
 }
-func (l *scriptListener) Addr() net.Addr { return fakeAddr("10.0.0.2:8080") }
+func (l *zzscriptListener) Addr() net.Addr { return zzfakeAddr("10.0.0.2:8080") }
 
-var errUnused = errors.New("unused")
+var zzerrUnused = errors.New("unused")
 
 // VerifC07Serve: Serve accepts 1..K idle connections while Close is called
 // concurrently, under every schedule within the preemption bound.
 func VerifC07Serve() {
 	k := 1 + vf.Choice("connections", vf.Param("connections"))
 	p := NewProxy()
-	s := &shutter{p: p, at: ptNever}
+	s := &zzshutter{p: p, at: zzptNever}
 	p.SetRequestModifier(s)
 	p.SetResponseModifier(s)
-	o := &origin{}
+	o := &zzorigin{}
 	o.answer = func(i int, req *http.Request) (*http.Response, error) {
-		return rawResponse(resSpec{status: 200, hval: "o", body: []byte("body")}.wire(), req)
+		return zzrawResponse(zzresSpec{status: 200, hval: "o", body: []byte("body")}.wire(), req)
 	}
 	p.SetRoundTripper(o)
-	var ccs []*clientConn
-	l := &scriptListener{closedc: make(chan struct{})}
+	var ccs []*zzclientConn
+	l := &zzscriptListener{closedc: make(chan struct{})}
 	for i := 0; i < k; i++ {
-		var cc *clientConn
+		var cc *zzclientConn
 		if vf.Choice("client-sends-a-request", 2) == 1 {
-			cc = newClientConn("client", false, reqSpec{method: "GET", path: "/x", hval: "a"}.wire())
+			cc = zznewClientConn("client", false, zzreqSpec{method: "GET", path: "/x", hval: "a"}.wire())
 		} else {
-			cc = newClientConn("client", false)
+			cc = zznewClientConn("client", false)
 		}
 		ccs = append(ccs, cc)
 		l.conns = append(l.conns, cc)
@@ -263,7 +263,7 @@ func VerifC07Serve() {
 	vf.Assert(s.reqStarts == starts, "no-request-modifier-starts-after-shutdown-returned")
 	for i := 0; i < l.accepts; i++ {
 		vf.Assert(ccs[i].closed >= 1, "connections-accepted-during-shutdown-are-closed")
-		got := clientView(ccs[i].out.Bytes(), []string{"GET"})
+		got := zzclientView(ccs[i].out.Bytes(), []string{"GET"})
 		for _, g := range got {
 			vf.Assert(g.ok && g.status == 200 && bytes.Equal(g.body, []byte("body")), "started-exchange-completed")
 		}
